@@ -111,10 +111,11 @@ class NDJsonProtocolReader:
                 "Data in the stream is not in the expected Yardl NDJSON format."
             )
 
-        if (
-            header_json.get("version")  # pyright: ignore [reportUnknownMemberType]
-            != CURRENT_NDJSON_FORMAT_VERSION
-        ):
+        version = header_json.get(  # pyright: ignore [reportUnknownMemberType]
+            "version"
+        )
+        # (a JSON true would compare equal to version 1)
+        if isinstance(version, bool) or version != CURRENT_NDJSON_FORMAT_VERSION:
             raise ValueError("Unsupported yardl version.")
 
         if header_json.get(  # pyright: ignore [reportUnknownMemberType]
